@@ -91,6 +91,31 @@ theorem returns_builds_default (v : Nat) (vs : List Nat) :
   obtain ⟨q1, q2, q3⟩ := one (createWhen none (some v)) rfl rfl rfl rfl
   exact ⟨p1, p2, p3, q1, q2, q3⟩
 
+/-- when.go:140 `In()` **without alternatives** (e.g. an empty list spread into it) still declares a stub of its own: the
+    `Return/Returns` that follows belongs to that new stub (`returns_builds_condition` with `c = isIn []`: nothing is appended to
+    the previously selected condition or to the default), and as it can never match, which stub any call selects is exactly what
+    it was before.  (`hwf`: the match order only mentions existing stubs — true of every `When` the API builds.) -/
+theorem empty_in_stub_is_dead (w : When) (v : Nat) (vs : List Nat) (hwf : ∀ i ∈ w.mlist, i < w.ms.length) (a : Nat) :
+    select (rets (whenOp w (.isIn [])) (v :: vs)) a = select w a := by
+  obtain ⟨r1, r2, r3, r4, -⟩ := returns_builds_condition w (.isIn []) v vs
+  unfold select
+  rw [r2, r3, List.find?_append]
+  have hold : w.mlist.find? (hit (rets (whenOp w (.isIn [])) (v :: vs)).ms a) = w.mlist.find? (hit w.ms a) := by
+    apply find_congr_mem
+    intro i hi
+    unfold hit
+    rw [r4 i (hwf i hi)]
+  have hnew : hit (rets (whenOp w (.isIn [])) (v :: vs)).ms a w.ms.length = false := by
+    unfold hit; rw [r1]; rfl
+  rw [hold]
+  cases h : w.mlist.find? (hit w.ms a) with
+  | some i => rfl
+  | none => simp only [Option.none_or, List.find?_cons, hnew, List.find?_nil]
+
+/-- `When(1).Returns(10, 11)`, then `In().Returns(7, 8)`: calls with 1 keep getting 10, 11, 11, … -/
+example : (calls (rets (whenOp (rets (whenOp (createWhen none none) (.eq 1)) [10, 11]) (.isIn [])) [7, 8]) [1, 1, 1, 1]).map (·.2) =
+    [.val 10, .val 11, .val 11, .val 11] := by decide
+
 /-- mocker.go `Returns` on a mocker without a `When` (all mocker kinds; targets with results): the call installs a `When` exactly
     when it carries values.  A first `Returns()` with no values is rejected (`*erro.ReturnsNotMatch`) and leaves the mocker
     untouched — it can no longer be used to obtain a bare, result-less `When` whose calls would panic —, so every later
